@@ -101,9 +101,19 @@ NEEDS = {
  "C14-6": ("resetConsecutiveRestarts ignores data events while a restart is in progress", "data progress arriving during the restart backoff"),
  "C16-5": ("gsDataRequestRcvd keeps the old current request unless the requester cancelled it", "second incoming request on a channel without a cancel in between"),
  "C16-6": ("outgoing block hooks filter on BlockSize()==0 instead of BlockSizeOnWire()==0", "restart-skipped blocks (size > 0, nothing on the wire)"),
+ "C07-5": ("CreateNew primes the block-index cache before Begin", "refused duplicate creation of a channel that already counted positions, then a replay"),
+ "C07-6": ("updateIfGreater: CAS loop replaced by atomic load / compare / atomic store", "two concurrent reporters of the same position, or of p and p-1"),
+ "C11-5": ("PauseDataTransferChannel skips the transport pause when the counterparty is already paused", "counterparty pauses, then the local side pauses"),
+ "C11-6": ("ResponderPaused() treats every finalization status (Finalizing, Completing, Completed) as paused", "responder resumed out of Finalizing / completed channel"),
+ "C15-5": ("openStream skips the backoff (and the attempt counter) when the failed attempt took longer than the backoff", "slow stream-open failures"),
+ "C15-6": ("msgToStream writes through a bufio.Writer flushed in a deferred, unchecked Flush", "stream write failure for a message smaller than the buffer"),
+ "C17-5": ("failed open unsubscribes the per-transfer subscriber right away", "SendMessage / OpenChannel fails after the channel was created: Error and CleanupComplete are announced after the unsubscribe"),
+ "C17-6": ("dispatch does not announce CompleteCleanupOnRestart", "restart of a channel in a cleanup status"),
+ "C19-5": ("rejected restart fails the channel without recording the validator's voucher result", "rejected restart whose validation result carries a voucher result"),
+ "C19-6": ("channelState holds a pointer to the record: the exported EmptyChannelState has a nil record", "any accessor on channels.EmptyChannelState"),
  "C19-2": ("NewVoucher restricted to a hand-built status list that omits ResponderFinalizingTransferFinished", "SendVoucher while the initiator is in ResponderFinalizingTransferFinished"),
 }
-NOT_CAUGHT={"C09-6":"the re-run of the cleanup entry function needs an event to arrive in the window between entering Cancelling/Failing/Completing and CleanupComplete, which only exists in the asynchronous go-statemachine queue (the synchronous model finishes the cleanup before the next event); the unchanged tree has the same re-entry for the events that are already FromAny().ToNoChange() (DataReceived, Disconnected, ...), so this window is declared outside the claim under C09","C17-3":"needs the asynchronous notification queue of go-statemachine (a subscriber slower than 5 s lets the next notification overtake); the synchronous model group delivers notifications inside Send, so ordering under slow subscribers is declared outside the claim"}
+NOT_CAUGHT={"C17-5":"the per-transfer subscriber misses Error / CleanupComplete only because the real notifier delivers them asynchronously, after the unsubscribe; the synchronous model delivers them inside channels.Error, before the unsubscribe runs - notification timing relative to the caller is declared outside the claim under C17","C09-6":"the re-run of the cleanup entry function needs an event to arrive in the window between entering Cancelling/Failing/Completing and CleanupComplete, which only exists in the asynchronous go-statemachine queue (the synchronous model finishes the cleanup before the next event); the unchanged tree has the same re-entry for the events that are already FromAny().ToNoChange() (DataReceived, Disconnected, ...), so this window is declared outside the claim under C09","C17-3":"needs the asynchronous notification queue of go-statemachine (a subscriber slower than 5 s lets the next notification overtake); the synchronous model group delivers notifications inside Send, so ordering under slow subscribers is declared outside the claim"}
 os.makedirs(DST, exist_ok=True)
 n=0
 for key,(what,needs) in sorted(NEEDS.items()):
